@@ -312,6 +312,12 @@ def _try_except(ctx, rep, cl, av):
 def _enum_members(ctx, rep, cl, want):
     c = ctx.p.find_class("_sensitive_item_formats")
     members = {k for k in c.assigns if not k.startswith("_")}
+    try:
+        vals = {k: ctx.folder.class_const(c, k) for k in members}
+    except Unfoldable:
+        vals = {}
+    dup = sorted(k for k in vals if list(vals.values()).count(vals[k]) > 1)
+    rep.ob(cl + ".format-enum-distinct", c.name, bool(vals) and not dup, "format classes with equal values %s: Enum members with the same value are ONE member, so their encoder branches would both run" % (dup or "none"), "%s:%d" % (c.module.relpath, c.node.lineno), key=cl + ".format-enum-distinct|_sensitive_item_formats")
     rep.ob(cl + ".format-enum", c.name, members == want, "format classes declared: %s; handled: %s (a member without classifier/encoder would silently fall back to text)" % (sorted(members), sorted(want)), "%s:%d" % (c.module.relpath, c.node.lineno), key=cl + ".format-enum|_sensitive_item_formats")
 
 
